@@ -517,3 +517,34 @@ def resolve_variant_temps(fn, starts, cut=(), stop_blocks=()):
         if not grew:
             break
     return cut
+
+
+def guarded_through(fn, target, pred, depth=0):
+    """guarded(), also when the decision is carried in a local: target lies behind `V is Some` / `flag == true` and every
+    definition that gives V that variant / value is itself (recursively) behind an edge satisfying pred
+    (`let mut found = None; for .. { if test { found = Some(i); break } } let Some(i) = found else { return }; <target>`)."""
+    if guarded(fn, target, pred)[0]:
+        return True
+    if depth > 3:
+        return False
+    for (gb, gi, g) in all_guards(fn):
+        t_ = strip_refs(g.term)
+        if t_[0] != "var" or not fn.unreachable_without(target, [(gb, gi)]):
+            continue
+        sites = []
+        for d in fn.defs().get(t_[1], []):
+            if d[0] != "assign":
+                if g.kind == "variant":
+                    sites.append((d[1], None))
+                continue
+            dv = strip_refs(fn.term_of_rvalue(d[3], d[1]))
+            if g.kind == "variant":
+                vn = dv[2].split("::")[-1] if dv[0] == "agg" and dv[2] else None
+                if vn is None or vn == g.variant:
+                    sites.append((d[1], vn))
+            elif g.kind == "bool":
+                if dv[0] != "c" or bool(dv[1]) == bool(g.truth):
+                    sites.append((d[1], dv[0] == "c"))
+        if g.kind in ("variant", "bool") and sites and all(k for _b, k in sites) and all(guarded_through(fn, b, pred, depth + 1) for b, _k in sites):
+            return True
+    return False
